@@ -863,6 +863,9 @@ def run_property(prop, units, tier="quick", seed=0, meta=None, only=None):
     sel = [u for u in units if u.prop == prop and (tier == "thorough" or u.tier == "quick")]
     if only:
         sel = [u for u in sel if u.uid in only]
+    if not sel:
+        print("UNDECIDED property=%s reason=no unit selected (unknown property, unit id or tier)" % prop)
+        return 2
     rnd = random.Random(seed)
     rnd.shuffle(sel)
     # heavy units first
